@@ -146,6 +146,19 @@ static void wake_waiters (nsync_dll_list_ to_wake_list, int all_readers) {
 	}
 }
 
+/* Wake the waiter *nw, which is not embedded in a "waiter" struct (it belongs
+   to a call to nsync_wait_n()) and has just been removed from *pcv's queue.
+   Requires that *pcv's spinlock be held:  cv_dequeue() acquires that spinlock,
+   so once it has seen nw->waiting==0 this thread will not touch *nw again, and
+   the nsync_wait_n() call may return and reuse the memory.  (A native waiter
+   instead uses its remove_count to detect that it has been taken off the queue,
+   and then waits for its "waiting" field to be cleared.)  */
+static void wake_foreign_waiter (struct nsync_waiter_s *nw) {
+	nsync_semaphore *sem = nw->sem;
+	ATM_STORE_REL (&nw->waiting, 0); /* release store */
+	nsync_mu_semaphore_v (sem);
+}
+
 /* ------------------------------------------ */
 
 /* Versions of nsync_mu_lock() and nsync_mu_unlock() that take "void *"
@@ -334,7 +347,11 @@ void nsync_cv_signal (nsync_cv *pcv) {
 				} while (!ATM_CAS (&DLL_WAITER (first)->remove_count,
 						   old_value, old_value+1));
 			}
-			to_wake_list = nsync_dll_make_last_in_list_ (to_wake_list, first);
+			if ((first_nw->flags & NSYNC_WAITER_FLAG_MUCV) != 0) {
+				to_wake_list = nsync_dll_make_last_in_list_ (to_wake_list, first);
+			} else {
+				wake_foreign_waiter (first_nw);
+			}
 			if ((first_nw->flags & NSYNC_WAITER_FLAG_MUCV) != 0 &&
 			    DLL_WAITER (first)->l_type == nsync_reader_type_) {
 				int woke_writer;
@@ -375,9 +392,11 @@ void nsync_cv_signal (nsync_cv *pcv) {
 								    &DLL_WAITER (p)->remove_count);
 							} while (!ATM_CAS (&DLL_WAITER (p)->remove_count,
 									   old_value, old_value+1));
+							to_wake_list = nsync_dll_make_last_in_list_ (
+								to_wake_list, p);
+						} else {
+							wake_foreign_waiter (p_nw);
 						}
-						to_wake_list = nsync_dll_make_last_in_list_ (
-							to_wake_list, p);
 					}
 				}
 			}
@@ -420,8 +439,10 @@ void nsync_cv_broadcast (nsync_cv *pcv) {
 					old_value = ATM_LOAD (&DLL_WAITER (p)->remove_count);
 				} while (!ATM_CAS (&DLL_WAITER (p)->remove_count,
 						   old_value, old_value+1));
+				to_wake_list = nsync_dll_make_last_in_list_ (to_wake_list, p);
+			} else {
+				wake_foreign_waiter (p_nw);
 			}
-			to_wake_list = nsync_dll_make_last_in_list_ (to_wake_list, p);
 		}
 		/* Release spinlock and mark queue empty. */
 		ATM_STORE_REL (&pcv->word, 0); /* release store */
